@@ -61,6 +61,32 @@ def file_norm(es):
     return [[list(c), list(o) if o else ['']] for c, o in es]
 
 
+def freqs(r, k, fmax=3):
+    """a frequency column (third column of an event file) for k lines: 0..fmax, zeros included, never all zero"""
+    f = [r.randint(0, fmax) for _ in range(k)]
+    if k and not any(f):
+        f[r.randrange(k)] = r.randint(1, fmax)
+    return f
+
+
+def freqs_total(r, n, fmax=3):
+    """a frequency column whose entries sum to n >= 1 (the file then MEANS n events); zeros occur at the
+    start, in the middle and (sometimes) as the last line"""
+    f = []
+    while sum(f) < n:
+        f.append(min(r.randint(0, fmax), n - sum(f)))
+    if r.random() < 0.3:
+        f.append(0)
+    return f
+
+
+def expand(es, freq):
+    """what a file with the lines `es` and the frequency column `freq` means: line k repeated freq[k] times"""
+    if freq is None:
+        return [[list(c), list(o)] for c, o in es]
+    return [[list(c), list(o)] for (c, o), k in zip(es, freq) for _ in range(int(k))]
+
+
 def wide_cues(r, n_cues, n_events=2):
     names = ['c%d' % i for i in range(n_cues)]
     es = [[list(names), ['x', 'y']]]
